@@ -62,6 +62,14 @@ CLAIMS = {
          "Decides for all 11 Session methods: each parameter reaches exactly one T-message field on the client (identity or a documented conversion) and the dispatcher passes that same field as the same-position argument; each result of Session.M reaches one R-message field and the client returns that field at the same position; all T fields are set; the reply is consumed by a checked assertion to the R-type with code T+1; transport errors are returned; dispatch table exhaustive; Tread buffer sized from Count with the msize clamp (bounds).",
          "Not decided: value transport through the codec (C01), clipping values, whole-second timestamps, completion of all concurrent calls (flow-control coupling is a timing property).",
          "§4 C09, §3 E2/E12"),
+ "C15": ("interprocedural abstract interpretation of path strings in package ufs (classes: rooted-clean, export-root, host-confined) with computed validator summaries, field invariant on FileRef.Path, who-writes rule on fServer.Base",
+         "Decides: every string argument of every call from ufs into os/syscall/io/ioutil (all 10 call sites, 11 path arguments) is filepath.Join(Base, FromSlash(x)) with x rooted-clean, established by a successful fullPath validation, a path.Join/Clean/Dir of a rooted-clean value, or the FileRef.Path invariant; every store to FileRef.Path stores a validated path; Base written only by the constructor; os.Remove only on the edge Path != \"/\"; the session rejects non-normalised walk names and '.'/'..' create names before the FS sees them.",
+         "Not decided: symlinks inside the export (excluded), rename of the root itself (OS refuses), Windows separators. Trusted: path/filepath semantics as encoded in the transfer functions.",
+         "§4 C15, §3 E10"),
+ "C16": ("conditional constant propagation of the helpers' own branch predicates over an alphabet of name classes, edge/dominance rules, linear-fact entailment with inferred inductive loop invariants (bounds)",
+         "Decides: ValidPath, NormalizePath and CreateName classify each name class (empty, '.', '..', with '/' or '\\', ordinary incl. dotted names) exactly as specified; '..' is counted by ValidPath only on the edge n == i and the counter is what is returned; WalkName succeeds only on an edge implying 0 <= ValidPath(names) <= depth(dir) with depth = Count(dir[:len-1], '/') and returns path.Join(dir, path.Join(names...)); CreateName returns path.Join(dir, name); slice/index obligations hold (NormalizePath's cursor via an inferred inductive invariant).",
+         "Not decided: equality with stepwise resolution / idempotence as functional statements over all strings; class-invariance of the predicates outside the alphabet is argued, not checked. Trusted: path.Join, strings.Count.",
+         "§4 C16"),
 }
 
 REASON_PENDING = "static check not built yet in this round (planned per DESIGN.md §4); not claimed until its rules are in place"
